@@ -57,7 +57,7 @@ func c18Specs() []distSpec {
 		out = append(out, distSpec{"RandU", fmt.Sprintf("[%g,%g)", p[0], p[1]), false, p[0], p[1], func(s []int) (tensor.Tensor, error) { return tensor.RandU(s, p[0], p[1], T) }, true})
 	}
 	out = append(out, distSpec{"RandU(untracked conf)", "[0,1)", false, 0, 1, func(s []int) (tensor.Tensor, error) { return tensor.RandU(s, 0, 1, nil) }, false})
-	for _, p := range [][2]float64{{0, 1}, {5, 0.1}, {-2, 3}, {100, 25}} {
+	for _, p := range [][2]float64{{0, 1}, {5, 0.1}, {-2, 3}, {100, 25}, {0, 1e200}, {0, 1e-180}} {
 		p := p
 		out = append(out, distSpec{"RandN", fmt.Sprintf("mean %g sigma %g", p[0], p[1]), true, p[0], p[1], func(s []int) (tensor.Tensor, error) { return tensor.RandN(s, p[0], p[1], T) }, true})
 	}
@@ -65,7 +65,7 @@ func c18Specs() []distSpec {
 	// an initializer must keep what it was configured with, not a reference to the caller's struct
 	u0 := mustInit(initializers.NewUniform(nil))
 	out = append(out, distSpec{"Uniform", "nil config", false, -0.05, 0.05, u0.Init, true})
-	for _, p := range [][2]float64{{-1, 4}, {0.25, 0.75}, {-7, -6.5}, {0, 1}, {-2, 0}, {0, 1e-3}, {-0.05, 0.5}} {
+	for _, p := range [][2]float64{{-1, 4}, {0.25, 0.75}, {-7, -6.5}, {0, 1}, {-2, 0}, {0, 1e-3}, {-0.05, 0.5}, {-1e300, 1e300}, {0, 1e-300}} {
 		uc := &initializers.UniformConfig{Lower: p[0], Upper: p[1]}
 		u := mustInit(initializers.NewUniform(uc))
 		uc.Lower, uc.Upper = 100, 200
@@ -73,7 +73,7 @@ func c18Specs() []distSpec {
 	}
 	n0 := mustInit(initializers.NewNormal(nil))
 	out = append(out, distSpec{"Normal", "nil config", true, 0, 0.05, n0.Init, true})
-	for _, p := range [][2]float64{{1, 2}, {-3, 0.5}, {0, 10}, {0, 0.05}, {2, 0.05}, {0, 1}} {
+	for _, p := range [][2]float64{{1, 2}, {-3, 0.5}, {0, 10}, {0, 0.05}, {2, 0.05}, {0, 1}, {0, 1e-170}, {0, 1e160}, {0, 1e-200}, {1e150, 1e150}} {
 		nc := &initializers.NormalConfig{Mean: p[0], StdDev: p[1]}
 		n := mustInit(initializers.NewNormal(nc))
 		nc.Mean, nc.StdDev = -50, 7
@@ -120,8 +120,27 @@ func (d distSpec) moments() (mu, sigma, kurt float64) {
 	return (d.a + d.b) / 2, (d.b - d.a) / math.Sqrt(12), 1.8
 }
 
+// z maps draws to the standard form of the configured distribution ((x-mean)/sigma, (x-lower)/(upper-lower)): every
+// statistic is computed on these, so parameters of extreme magnitude (sigma 1e-170 or 1e160) neither under- nor overflow.
+func (d distSpec) z(xs []float64) []float64 {
+	o := make([]float64, len(xs))
+	for i, x := range xs {
+		if d.normal {
+			o[i] = (x - d.a) / d.b
+		} else {
+			o[i] = (x - d.a) / (d.b - d.a)
+		}
+	}
+	return o
+}
+
 // conform runs the moment and Kolmogorov checks on one sample.
 func (d distSpec) conform(xs []float64, what string) string {
+	if !(d.a == 0 && d.b == 1) {
+		std := d
+		std.a, std.b = 0, 1
+		return std.conform(d.z(xs), what+", standardised by the configured parameters")
+	}
 	n := float64(len(xs))
 	mu, sigma, kurt := d.moments()
 	m := 0.
@@ -327,6 +346,8 @@ func c18Dist(k *fw.K, d distSpec, target int) {
 		}
 		k.Count("statistical_checks", 3)
 	}
+	all = d.z(all)
+	p0pair, p1pair = d.z(p0pair), d.z(p1pair)
 	if r := corr(all[:len(all)-1], all[1:]); math.Abs(r) > 6.5/math.Sqrt(float64(len(all))) {
 		k.Failf("%s: lag-1 autocorrelation of the draw stream is %v over %d draws (threshold %v)", name, r, len(all), 6.5/math.Sqrt(float64(len(all))))
 		return
